@@ -227,6 +227,7 @@ ABTI_mem_pool_take_bucket(ABTI_mem_pool_global_pool *p_global_pool,
         ABTI_sync_lifo_pop(&p_global_pool->bucket_lifo);
     const int num_headers_per_bucket = p_global_pool->num_headers_per_bucket;
     if (ABTU_likely(p_popped_bucket_lifo_elem)) {
+        ABTV_REACH("mempool.bucket_from_global_lifo");
         /* Use this bucket. */
         ABTI_mem_pool_header *popped_bucket =
             mem_pool_lifo_elem_to_header(p_popped_bucket_lifo_elem);
@@ -248,6 +249,7 @@ ABTI_mem_pool_take_bucket(ABTI_mem_pool_global_pool *p_global_pool,
                 /* Use a page popped from mem_page_lifo */
                 p_page = mem_pool_lifo_elem_to_page(p_page_lifo_elem);
             } else {
+                ABTV_REACH("mempool.new_page");
                 /* Let's allocate memory by myself */
                 const size_t page_size = p_global_pool->page_size;
                 ABTU_MEM_LARGEPAGE_TYPE lp_type;
